@@ -330,10 +330,11 @@ def stubs():
 
 def server_close(ctx, ex, prog, viol):
     n = 0
-    for shape, nc in [('None', 0), ('None', 2), ('Body:Delivery', 1)] + ctx.q([], [('Start:Get', 1), ('Body:Return', 2)]):
+    # the last configuration has a reply that channel A's caller has not picked up yet (its call is in flight): the close notice must still fit
+    for shape, nc, pf in [('None', 0, 0), ('None', 2, 0), ('Body:Delivery', 1, 0), ('None', 1, 1)] + ctx.q([], [('Start:Get', 1, 0), ('Body:Return', 2, 1)]):
         def pre(fs, a, b):
             return [fs.is_method('Connection', 'Close'), fs.chan('Method') == 0]
-        fs, a, b, infoA, res = explore_step(ctx, ex, prog, shapeA=shape, consumersA=nc, pre=pre)
+        fs, a, b, infoA, res = explore_step(ctx, ex, prog, shapeA=shape, consumersA=nc, pre=pre, prefillA=pf)
         cf = prog.types.fields('amq_protocol::protocol::connection::Close')
         code = fs.method_field('Connection', 'Close', cf.index('reply_code'), BV16)
         text = fs.method_field('Connection', 'Close', cf.index('reply_text'), StrSort)
@@ -420,10 +421,10 @@ def server_close(ctx, ex, prog, viol):
 
 def client_close_ok(ctx, ex, prog, viol):
     n = 0
-    for nc in (0, 2):
+    for nc, pf in ((0, 0), (2, 0), (1, 1)):
         def pre(fs, a, b):
             return [fs.is_method('Connection', 'CloseOk'), fs.chan('Method') == 0]
-        fs, a, b, infoA, res = explore_step(ctx, ex, prog, shapeA='None', consumersA=nc, pre=pre)
+        fs, a, b, infoA, res = explore_step(ctx, ex, prog, shapeA='None', consumersA=nc, pre=pre, prefillA=pf)
         for (s, w, rv) in res:
             n += 1
             conds = []
